@@ -14,17 +14,19 @@ Import ListNotations.
 Open Scope N_scope.
 
 (* none is left pending below the next expected sequence -- and, as long as no catch-up answer was aborted
-   by a database error, none AT it either (so every buffered key is strictly ahead) *)
+   half way by the database ([run_clean]: every PartitionSyncResponse of the history was applied completely,
+   which is what an honest coordinator's answer -- commits continuing the replica's log -- gives),
+   none AT it either (so every buffered key is strictly ahead) *)
 Theorem C12_no_stale_pending : forall n0 limit T Tc ops k e,
   In (k, e) (r_map (fst (r_run0 n0 limit T Tc ops))) ->
   r_next (fst (r_run0 n0 limit T Tc ops)) <= k /\
-  (Forall sync_clean ops -> r_next (fst (r_run0 n0 limit T Tc ops)) < k).
+  (run_clean (r_init n0 limit T Tc) ops -> r_next (fst (r_run0 n0 limit T Tc ops)) < k).
 Proof. exact no_stale_pending. Qed.
 
 (* buffered writes are applied as soon as their predecessor is: after any history (whose catch-up answers,
    if any, were applied completely) no entry with key = next remains buffered *)
 Theorem C12_buffer_drain : forall n0 limit T Tc ops,
-  Forall sync_clean ops -> m_find (r_next (fst (r_run0 n0 limit T Tc ops))) (r_map (fst (r_run0 n0 limit T Tc ops))) = None.
+  run_clean (r_init n0 limit T Tc) ops -> m_find (r_next (fst (r_run0 n0 limit T Tc ops))) (r_map (fst (r_run0 n0 limit T Tc ops))) = None.
 Proof. exact buffer_drain. Qed.
 
 (* ... and without that hypothesis, per step: from ANY reachable state, a write that the queue takes and a
@@ -36,20 +38,21 @@ Theorem C12_buffer_drain_step : forall n0 limit T Tc ops,
   (forall now rid key tx more ok,
      ins_accepted (snd (rq_insert (tq_q (r_tq s)) key (mk_rentry tx key more ok [(rid, now)]))) = true ->
      r_drained (fst (r_deliver now s rid key tx more ok))) /\
-  (forall now cs, forallb c_ok cs = true -> r_drained (fst (r_sync now s (Some cs)))) /\
-  (forall o, sync_clean o -> r_drained s -> r_drained (fst (r_step s o))).
+  (forall now cs, step_clean s (OpSync now (Some cs)) -> r_drained (fst (r_sync now s (Some cs)))) /\
+  (forall o, step_clean s o -> r_drained s -> r_drained (fst (r_step s o))).
 Proof. exact buffer_drain_step. Qed.
 
 (* an append happens only at the coordinator-assigned sequence, which is the current [next]:
-   the log is a gap-free run of appends from n0 to the database's next sequence, every replicated entry
-   (l_assigned = Some a) sits at a, the queue's next IS the database's next, the database is never even
+   the log is a gap-free run of appends from n0 to the database's next sequence, EVERY entry -- replicated
+   write or catch-up commit (since 28b51ee both carry an expected sequence) -- sits at the sequence assigned
+   to it, the queue's next IS the database's next, the database is never even
    offered a write at another sequence (no WrongExpectedSequence answer), and an "applied at pos" answer goes
    only to a reply id whose write was sent for sequence pos *)
 Theorem C12_apply_at_assigned : forall n0 limit T Tc ops,
   let s := fst (r_run0 n0 limit T Tc ops) in
   let evs := snd (r_run0 n0 limit T Tc ops) in
   log_contig n0 (r_log s) (r_dbnext s) /\
-  (forall le a, In le (r_log s) -> l_assigned le = Some a -> l_pos le = a) /\
+  (forall le, In le (r_log s) -> l_assigned le = Some (l_pos le)) /\
   r_dbnext s = r_next s /\
   (forall rid, ~ In (EvAns rid (OErr EWrongSeq)) evs) /\
   (forall rid pos, In (EvAns rid (OApplied pos)) evs -> In (rid, pos) (ops_deliveries ops)).
@@ -122,7 +125,7 @@ Example C12_example_history :
   snd (r_run0 5 3 1000 1000 ops) =
     [EvAns 0 (OErr EStale); EvAns 1 (OApplied 5); EvAns 2 (OApplied 8); EvAns 3 (OErr EStale)] /\
   r_map (fst (r_run0 5 3 1000 1000 ops)) = [] /\ r_next (fst (r_run0 5 3 1000 1000 ops)) = 9 /\
-  Forall sync_clean ops /\ NoDup (ops_rids ops).
+  run_clean (r_init 5 3 1000 1000) ops /\ NoDup (ops_rids ops).
 Proof. vm_compute. repeat split; repeat constructor; cbn; intuition discriminate. Qed.
 
 (* out-of-order delivery, a duplicate, a conflict, an eviction, a full buffer and a database rejection *)
@@ -135,16 +138,19 @@ Example C12_example_buffering :
   r_map (fst (r_run0 0 2 1000 1000 ops)) = [] /\ r_next (fst (r_run0 0 2 1000 1000 ops)) = 4.
 Proof. vm_compute. repeat split. Qed.
 
-(* the single way to leave an entry AT next: a catch-up answer aborted by a database error *)
+(* the single way to leave an entry AT next: a catch-up answer the database aborts half way (here its second
+   commit does not continue the log); a catch-up answer that continues the log is applied and drains *)
 Example C12_aborted_sync_example :
-  let ops := [OpDeliver 0 0 6 60 0 true; OpSync 0 (Some [mk_commit 50 0 true; mk_commit 99 0 false])] in
-  ~ Forall sync_clean ops /\
+  let ops := [OpDeliver 0 0 6 60 0 true; OpSync 0 (Some [mk_commit 50 5 0 true; mk_commit 99 9 0 true])] in
+  ~ run_clean (r_init 5 3 1000 1000) ops /\
   r_next (fst (r_run0 5 3 1000 1000 ops)) = 6 /\ m_rids (r_map (fst (r_run0 5 3 1000 1000 ops))) = [0] /\
   (* ... and the next accepted write picks it up *)
-  snd (r_run0 5 3 1000 1000 (ops ++ [OpDeliver 0 1 9 90 0 true])) = [EvAns 0 (OApplied 6)].
+  snd (r_run0 5 3 1000 1000 (ops ++ [OpDeliver 0 1 9 90 0 true])) = [EvAns 0 (OApplied 6)] /\
+  (* an honest answer *)
+  let ops' := [OpDeliver 0 0 6 60 0 true; OpSync 0 (Some [mk_commit 50 5 0 true])] in
+  run_clean (r_init 5 3 1000 1000) ops' /\ snd (r_run0 5 3 1000 1000 ops') = [EvAns 0 (OApplied 6)].
 Proof.
-  split; [|vm_compute; repeat split]. intros H. inversion H as [|? ? _ H2]; subst. inversion H2 as [|? ? H3 _]; subst.
-  cbn in H3. discriminate.
+  split; [|vm_compute; repeat split]. vm_compute. intros (_ & H & _). discriminate.
 Qed.
 
 (* ------------------------------------------------------------------ history: the original code *)
